@@ -248,26 +248,32 @@ func (c *LocalReusableWorkflowCache) FindMetadata(spec string) (*ReusableWorkflo
 		return nil, nil
 	}
 
+	verifPoint("rw-read", spec, nil, nil)
 	if m, ok := c.readCache(spec); ok {
+		verifPoint("rw-hit", spec, nil, nil)
 		c.debug("Cache hit for %s: %v", spec, m)
 		return m, nil
 	}
+	verifPoint("rw-miss", spec, nil, nil)
 
 	file := filepath.Join(c.proj.RootDir(), filepath.FromSlash(spec))
 	src, err := os.ReadFile(file)
 	if err != nil {
+		verifPoint("rw-write", spec, nil, err)
 		c.writeCache(spec, nil) // Remember the workflow file was not found
 		return nil, fmt.Errorf("could not read reusable workflow file for %q: %w", spec, err)
 	}
 
 	m, err := parseReusableWorkflowMetadata(src)
 	if err != nil {
+		verifPoint("rw-write", spec, nil, err)
 		c.writeCache(spec, nil) // Remember the workflow file was invalid
 		msg := strings.ReplaceAll(err.Error(), "\n", " ")
 		return nil, fmt.Errorf("error while parsing reusable workflow %q: %s", spec, msg)
 	}
 
 	c.debug("New reusable workflow metadata at %s: %v", file, m)
+	verifPoint("rw-write", spec, nil, nil)
 	c.writeCache(spec, m)
 	return m, nil
 }
@@ -308,10 +314,12 @@ func (c *LocalReusableWorkflowCache) WriteWorkflowCallEvent(wpath string, event 
 	}
 	c.debug("Workflow call spec from workflow path %s: %s", wpath, spec)
 
+	verifPoint("rw-reg-read", spec, nil, nil)
 	c.mu.RLock()
 	_, ok = c.cache[spec]
 	c.mu.RUnlock()
 	if ok {
+		verifPoint("rw-reg-hit", spec, nil, nil)
 		return
 	}
 
@@ -352,6 +360,7 @@ func (c *LocalReusableWorkflowCache) WriteWorkflowCallEvent(wpath string, event 
 		}
 	}
 
+	verifPoint("rw-reg-write", spec, nil, nil)
 	c.mu.Lock()
 	c.cache[spec] = m
 	c.mu.Unlock()
